@@ -10,6 +10,8 @@ import realrun
 ID = 'C18'
 THEOREMS = [
     'Sourcer.C18_interleaving',
+    'Sourcer.C18_interleaving_any_number',
+    'Sourcer.C18_nested_call_is_invisible',
     'Sourcer.C07_memo_write_once',
     'Sourcer.C08_match_outcome',
 ]
